@@ -181,7 +181,7 @@ func (f *FailoverOf[V]) Get(
 	// If already locked waiting for completion before checking backend again.
 	if alreadyLocked {
 		// Return immediately if update is in progress and stale value available.
-		if val, freshEnough := f.freshEnough(err); freshEnough {
+		if val, freshEnough, _ := f.freshEnough(err); freshEnough {
 			return val, nil
 		}
 
@@ -189,13 +189,17 @@ func (f *FailoverOf[V]) Get(
 	}
 
 	// Pushing expired value with short ttl to serve during update.
-	if v, freshEnough := f.freshEnough(err); freshEnough {
+	v, freshEnough, hasStale := f.freshEnough(err)
+	if freshEnough {
 		if err = f.refreshStale(ctx, key, v); err != nil {
 			keyLock.err = err
 
 			return val, err
 		}
+	}
 
+	// Keeping overly stale value too, to serve it in case of update failure.
+	if hasStale {
 		val = v
 	}
 
@@ -221,7 +225,7 @@ func (f *FailoverOf[V]) Get(
 					"key", key)
 			}
 
-			if !f.config.FailHard && !errors.Is(err, ErrNotFound) {
+			if hasStale && !f.config.FailHard {
 				return val, nil
 			}
 		}
@@ -262,16 +266,18 @@ type klOf[V any] struct {
 	lock chan struct{}
 }
 
-func (f *FailoverOf[V]) freshEnough(err error) (val V, _ bool) {
+func (f *FailoverOf[V]) freshEnough(err error) (val V, freshEnough bool, hasStale bool) {
 	var errExpired ErrWithExpiredItemOf[V]
 
 	if errors.As(err, &errExpired) {
 		if f.config.MaxStaleness == 0 || time.Since(errExpired.ExpiredAt()) < f.config.MaxStaleness {
-			return errExpired.Value(), true
+			return errExpired.Value(), true, true
 		}
+
+		return errExpired.Value(), false, true
 	}
 
-	return val, false
+	return val, false, false
 }
 
 func (f *FailoverOf[V]) waitForValue(ctx context.Context, key []byte, keyLock *klOf[V]) (V, error) {
